@@ -8,8 +8,11 @@ package replica
 import (
 	"crypto/sha256"
 	"encoding/hex"
+	"encoding/json"
 	"fmt"
 	"math/big"
+	"os"
+	"strings"
 	"time"
 
 	sdkmath "cosmossdk.io/math"
@@ -68,6 +71,8 @@ func queryCode(bankCalldata []byte) []byte {
 	a.Call(evmasm.STATICCALL, 0, precomp.BankAddr, nil, 0, uint64(n), 0x40, 0x40)
 	a.SStoreTop(1)
 	a.PushU(0x60).Op(evmasm.MLOAD).SStoreTop(2) // a word of the returned data
+	a.Op(evmasm.RETURNDATASIZE).SStoreTop(3)    // non-zero only if the precompile really ran
+	a.PushU(0x40).Op(evmasm.MLOAD).SStoreTop(4)
 	return a.Stop().Bytes()
 }
 
@@ -92,6 +97,9 @@ func NewFix() *Fix {
 			{Addr: QueryAddr, Code: queryCode(bankSel)},
 		},
 		UnbondingTime: 20 * time.Second,
+		// 3 units of consensus power each: an undelegation or a 5% slash changes a validator's power
+		// without emptying the validator set (an empty set is a halted chain, outside every property here)
+		ValTokens: sdkmath.NewIntFromBigInt(new(big.Int).Mul(big.NewInt(3), new(big.Int).Exp(big.NewInt(10), big.NewInt(18), nil))),
 	}
 	return &Fix{Opts: o}
 }
@@ -136,6 +144,20 @@ func ethTx(w *world.World, key int, to *common.Address, value int64, data []byte
 		panic(err)
 	}
 	return bz
+}
+
+// liquid0 is the ERC20 contract of the first liquid denom (the zero address if there is none yet).
+func liquid0(w *world.World) *common.Address {
+	contract := common.Address{}
+	if pair, ok := w.App.Erc20Keeper.GetTokenPair(w.Ctx(), w.App.Erc20Keeper.GetTokenPairID(w.Ctx(), "aLIQUID0")); ok {
+		contract = pair.GetERC20Contract()
+	}
+	return &contract
+}
+
+func erc20Transfer(to common.Address, amt int64) []byte {
+	out := append([]byte{0xa9, 0x05, 0x9c, 0xbb}, common.LeftPadBytes(to.Bytes(), 32)...)
+	return append(out, common.LeftPadBytes(big.NewInt(amt).Bytes(), 32)...)
 }
 
 func coins(d string, n int64) sdk.Coins { return sdk.NewCoins(sdk.NewInt64Coin(d, n)) }
@@ -232,6 +254,30 @@ func Templates() []Template {
 			}
 			return [][]byte{bz}
 		}},
+		{Name: "erc20Transfer", Build: func(w *world.World, _ precomp.ABIs) [][]byte {
+			// an ordinary ERC20 transfer of the liquid token (a 3-topic Transfer log the erc20 hook inspects)
+			return [][]byte{ethTx(w, VestKey, liquid0(w), 0, erc20Transfer(w.Eth[2], 100), 3000000, 0)}
+		}},
+		{Name: "erc20SendToModule", Build: func(w *world.World, _ precomp.ABIs) [][]byte {
+			// ERC20 tokens sent to the erc20 module address: the EVM hook converts them to coins
+			return [][]byte{ethTx(w, VestKey, liquid0(w), 0, erc20Transfer(erc20types.ModuleAddress, 100), 3000000, 0)}
+		}},
+		{Name: "redeemAll", Build: func(w *world.World, _ precomp.ABIs) [][]byte {
+			// redeems the whole supply of the newest liquid denom, all held by this account (the denom's
+			// supply drops to zero; fails deterministically if nothing was liquidated)
+			c := sdk.NewInt64Coin("aLIQUID0", 1)
+			if n := w.App.LiquidVestingKeeper.GetDenomCounter(w.Ctx()); n > 0 {
+				d := fmt.Sprintf("aLIQUID%d", n-1)
+				if sup := w.App.BankKeeper.GetSupply(w.Ctx(), d); sup.IsPositive() {
+					c = sup // bank coins plus the part escrowed for its ERC20 form: all held by this account
+				}
+			}
+			bz, err := w.CosmosTx(w.Ctx(), world.CosmosSpec{Key: world.Key(VestKey), Gas: 10000000, Msgs: []sdk.Msg{lvtypes.NewMsgRedeem(vestAddr, vestAddr, c)}})
+			if err != nil {
+				panic(err)
+			}
+			return [][]byte{bz}
+		}},
 		{Name: "failingTxs", Build: func(w *world.World, _ precomp.ABIs) [][]byte {
 			to := DirtyAddr
 			return [][]byte{
@@ -311,7 +357,14 @@ func recordDeliver(r abci.ResponseDeliverTx) (string, string) {
 		}
 		evs += "}"
 	}
-	return digest([]byte(core + "|" + evs + "|" + r.Log)), core + " events=" + digest([]byte(evs)) + " log=" + digest([]byte(r.Log))
+	if os.Getenv("VERIF_RAWLOG") != "" {
+		fmt.Println("RAWLOG", r.Code, r.Log)
+	}
+	// the log is compared up to its first line break: SDK errors formatted with %+v append the Go
+	// call stack of the process (which includes the caller of DeliverTx, here the harness), and ABCI
+	// declares the log non-deterministic
+	lg, _, _ := strings.Cut(r.Log, "\n")
+	return digest([]byte(core + "|" + evs + "|" + lg)), core + " events=" + digest([]byte(evs)) + " log=" + digest([]byte(lg))
 }
 
 func evString(evs []abci.Event) string {
@@ -436,8 +489,8 @@ func (f *Fix) RunReference(p Plan, tmpl []Template) (History, Trace, *world.Worl
 			if i < len(p.Blocks) {
 				for _, ti := range p.Blocks[i] {
 					if tmpl[ti].Evidence {
-						ev = append(ev, abci.Misbehavior{Type: abci.MisbehaviorType_DUPLICATE_VOTE, Validator: abci.Validator{Address: w.ValCons[1], Power: 1},
-							Height: w.Header.Height, Time: w.Header.Time, TotalVotingPower: 2})
+						ev = append(ev, abci.Misbehavior{Type: abci.MisbehaviorType_DUPLICATE_VOTE, Validator: abci.Validator{Address: w.ValCons[1], Power: w.ValPower},
+							Height: w.Header.Height, Time: w.Header.Time, TotalVotingPower: 2 * w.ValPower})
 					}
 					if tmpl[ti].Downtime {
 						downtimeLeft = 7
@@ -469,6 +522,7 @@ type Variant struct {
 	MapSeed   uint
 	ClockSec  int64
 	Noise     bool
+	NoiseOld  bool   // the EVM-executing queries ask old heights before the latest one
 	Second    bool   // construct another application object first
 	RestartAt int    // restart after the commit of this block index (-1: never)
 	Restart   string // "same-db" | "copied-db" | "twice"
@@ -495,6 +549,32 @@ func (f *Fix) Replay(h History, v Variant) (Trace, *world.World) {
 			w.App.Query(abci.RequestQuery{Path: "/cosmos.bank.v1beta1.Query/TotalSupply"})
 			w.App.Query(abci.RequestQuery{Path: "/ethermint.evm.v1.Query/Params"})
 			w.App.Query(abci.RequestQuery{Path: "/haqq.coinomics.v1.Query/Params"})
+			// queries that EXECUTE the EVM, at the latest committed state and at old heights: what an
+			// RPC node answers for eth_call / eth_estimateGas while it processes blocks
+			last := w.App.LastBlockHeight()
+			if !strings.HasSuffix(label, ".begin-next") && !strings.HasSuffix(label, ".tx0") {
+				return // once after every Commit and once after every BeginBlock
+			}
+			for _, to := range []common.Address{QueryAddr, DirtyAddr} {
+				to := to
+				from := w.Eth[3]
+				args, _ := json.Marshal(evmtypes.TransactionArgs{From: &from, To: &to})
+				req, _ := (&evmtypes.EthCallRequest{Args: args, GasCap: 3000000, ChainId: w.EIP155().Int64(), ProposerAddress: w.ValCons[0]}).Marshal()
+				hs := []int64{0, 1, last - 1}
+				if v.NoiseOld {
+					hs = []int64{1, last - 1, 0}
+				}
+				for _, hgt := range hs {
+					if hgt < 0 || hgt > last || (hgt == last-1 && hgt <= 1) {
+						continue
+					}
+					qr := w.App.Query(abci.RequestQuery{Path: "/ethermint.evm.v1.Query/EthCall", Data: req, Height: hgt})
+					if os.Getenv("VERIF_RAWLOG") != "" {
+						fmt.Println("NOISE ethcall", label, hgt, qr.Code, qr.Log, len(qr.Value))
+					}
+				}
+				w.App.Query(abci.RequestQuery{Path: "/ethermint.evm.v1.Query/EstimateGas", Data: req})
+			}
 		}
 	}
 	if v.RestartAt >= 0 {
@@ -577,10 +657,49 @@ func GovTemplates() []Template {
 			p.EnableHeight = w.Header.Height + 4
 			return &feemarkettypes.MsgUpdateParams{Authority: authority(w), Params: p}
 		}),
+		gov("govToggleLiquid0", func(w *world.World) sdk.Msg {
+			// legacy-content proposal toggling conversion of the first liquid token pair
+			m, err := govv1.NewLegacyContent(erc20types.NewToggleTokenConversionProposal("toggle", "toggle", "aLIQUID0"), authority(w))
+			if err != nil {
+				panic(err)
+			}
+			return m
+		}),
 		gov("govErc20Params", func(w *world.World) sdk.Msg {
 			p := w.App.Erc20Keeper.GetParams(w.Ctx())
 			p.EnableEVMHook = !p.EnableEVMHook
 			return &erc20types.MsgUpdateParams{Authority: authority(w), Params: p}
 		}),
 	}
+}
+
+// LifecycleChains are histories in which a switch is turned off and on again with uses in between,
+// so that whatever a node keeps in memory about it is built at different moments on replicas that
+// restart, answer queries or iterate maps differently.
+func LifecycleChains(tmpl []Template, nBase int) []Plan {
+	ix := map[string]int{}
+	for i, t := range tmpl {
+		ix[t.Name] = i
+	}
+	var out []Plan
+	chain := func(names ...string) {
+		var blocks [][]int
+		for _, nm := range names {
+			i, ok := ix[nm]
+			if !ok {
+				panic("no template " + nm)
+			}
+			blocks = append(blocks, []int{i})
+			if i >= nBase {
+				blocks = append(blocks, []int{}, []int{}, []int{}, []int{}) // voting period
+			}
+		}
+		out = append(out, Plan{Name: "chain:" + strings.Join(names, ">"), Blocks: blocks, Tail: 2})
+	}
+	chain("liquidate", "govToggleLiquid0", "erc20Transfer", "govToggleLiquid0", "erc20SendToModule", "convertERC20")
+	chain("liquidate", "govErc20Params", "erc20SendToModule", "govErc20Params", "erc20SendToModule")
+	chain("liquidate", "erc20SendToModule", "govToggleLiquid0", "erc20SendToModule", "redeemAll")
+	chain("evmCreate", "govEvmParams", "evmCreate", "evmBankQuery", "pcDelegate")
+	chain("evmTransfer", "govFeemarketParams", "evmTransfer", "evmDirtyCall", "evmTransfer")
+	return out
 }
